@@ -135,4 +135,4 @@ def model_backend(schema, wb, flags, state="up", error=""):
         if tname == "columns":
             continue
         tables[tname] = {"cols": t["cols"], "rows": [[r.get(c) for c in t["cols"]] for r in t["rows"]]}
-    return {"id": wb["id"], "name": wb["name"], "flags": flags, "state": state, "error": error, "tables": tables}
+    return {"id": wb["id"], "name": wb["name"], "flags": flags, "state": state, "error": error, "tables": tables, "section": wb.get("section", "")}
